@@ -51,9 +51,9 @@ VTYPES = {
     "u128": (0, 2**128 - 1), "usize": (0, 2**64 - 1), "i8": (-2**7, 2**7 - 1),
     "i16": (-2**15, 2**15 - 1), "i32": (-2**31, 2**31 - 1), "i64": (-2**63, 2**63 - 1),
     "i128": (-2**127, 2**127 - 1), "isize": (-2**63, 2**63 - 1), "empty": (0, 0),
-    "user3": (0, 2**24 - 1),
+    "user3": (0, 2**24 - 1), "from1": (0, 2**32 - 1),
 }
-VT_NAMES = list(VTYPES)
+VT_NAMES = [t for t in VTYPES if t != "from1"]   # from1 only appears in the C10 family g6
 # index -> V conversion limit for the bare-pattern entry point (TryFrom<usize>)
 CONV_MAX = {"u8": 255, "i8": 127}
 
@@ -464,6 +464,13 @@ def g6_invalid(rng, n, prefix="g6"):
             emit([b""] + many[:300], kind, var, "build", "u8")
             emit(many, kind, var, "values", "u8")
             emit(many, kind, var, "build", "empty")
+            # a value type whose TryFrom<usize> rejects position 0 (like NonZeroU32): every collection
+            # given to the bare-pattern entry point is an InvalidConversion, whatever else is wrong
+            emit([b"a"], kind, var, "build", "from1")
+            emit(good, kind, var, "build", "from1")
+            emit([b"a", b"a"], kind, var, "build", "from1")
+            emit([b"", b"a"], kind, var, "build", "from1")
+            emit(good, kind, var, "values", "from1")
     # static entry points and huge num_free_blocks (BuildHelper capacity overflow)
     for var in ("bw", "cw"):
         emit([b"pattern"], 0, var, "build", "usize", nfb=4294967295)
@@ -552,7 +559,7 @@ def g8_perm(rng, n, prefix="g8"):
 # (generator, quick count, thorough count, kwargs); counts are the generator's own unit
 PLAN = {
     # property: (kinds, [(gen, quick_n, thorough_n)], forced ops or None)
-    "C01": ((0,), [("g11", 20, 200), ("g1", 220, 3000), ("g2", 40, 800), ("g3", 4, 24), ("g5", 30, 600), ("g4", 40, 350), ("g3s", 1, 8)]),
+    "C01": ((0,), [("g16", 10, 60), ("g11", 20, 200), ("g1", 220, 3000), ("g2", 40, 800), ("g3", 4, 24), ("g5", 30, 600), ("g4", 40, 350), ("g3s", 1, 8)]),
     "C02": ((0,), [("g11", 20, 200), ("g1", 220, 3000), ("g2", 40, 800), ("g3", 4, 24), ("g5", 30, 600), ("g4", 12, 100), ("g3s", 1, 6), ("g10", 6, 40)]),
     "C03": ((1,), [("g1", 220, 3000), ("g2", 40, 800), ("g3", 4, 24), ("g5", 30, 600), ("g11", 12, 120), ("g4", 12, 100), ("g3s", 1, 6), ("g10", 6, 40)]),
     "C04": ((2,), [("g1", 220, 3000), ("g2", 40, 800), ("g3", 4, 24), ("g5", 30, 600), ("g9", 40, 400), ("g11", 12, 120), ("g4", 12, 100), ("g3s", 1, 6), ("g10", 6, 40)]),
@@ -561,12 +568,12 @@ PLAN = {
     "C07": ((0, 1, 2), [("g11", 20, 200), ("g1", 150, 2000), ("g2", 40, 800), ("g3", 5, 30), ("g5", 40, 800), ("g7", 60, 400), ("g4", 70, 700), ("g3s", 1, 8)]),
     "C08": ((0, 1, 2), [("g5", 90, 2500)]),
     "C09": ((0, 1, 2), [("g13", 3, 12), ("g7", 200, 3000), ("g1", 100, 1500), ("g5", 30, 400), ("g3", 2, 10), ("g11", 8, 60)]),
-    "C10": ((0, 1, 2), [("g6", 620, 4000), ("g3", 5, 30), ("g3s", 2, 10), ("g4", 14, 140), ("g11", 10, 80), ("g5", 10, 120)]),
+    "C10": ((0, 1, 2), [("g15", 5, 5), ("g6", 620, 4000), ("g3", 5, 30), ("g3s", 2, 10), ("g4", 14, 140), ("g11", 10, 80), ("g5", 10, 120)]),
     "C11": ((0, 1, 2), [("g3", 7, 40), ("g3s", 3, 16), ("g4", 35, 350)]),
     "C12": ((0,), [("g1", 200, 3000), ("g2", 40, 800), ("g5", 40, 800), ("g11", 10, 100), ("g10", 6, 40)]),
-    "C13": ((0, 1, 2), [("g1", 200, 3000), ("g2", 40, 800), ("g3", 4, 24), ("g5", 30, 600), ("g10", 12, 60), ("g4", 35, 350), ("g11", 30, 300)]),
+    "C13": ((0, 1, 2), [("g16", 24, 60), ("g1", 200, 3000), ("g2", 40, 800), ("g3", 4, 24), ("g5", 30, 600), ("g10", 12, 60), ("g4", 35, 350), ("g11", 30, 300)]),
     "C14": ((0, 1, 2), [("g12", 6, 24), ("g8", 12, 150), ("g1", 60, 600)]),
-    "C15": ((0, 1, 2), [("g1", 200, 3000), ("g2", 40, 800), ("g3", 5, 30), ("g5", 30, 600), ("g4", 35, 350), ("g11", 10, 100), ("g3s", 1, 6)]),
+    "C15": ((0, 1, 2), [("g14", 24, 48), ("g1", 200, 3000), ("g2", 40, 800), ("g3", 5, 30), ("g5", 30, 600), ("g4", 35, 350), ("g11", 10, 100), ("g3s", 1, 6)]),
 }
 
 
@@ -705,7 +712,65 @@ def g13_huge(rng, n, prefix="g13"):
     return cases
 
 
-GENS = {"g13": g13_huge, "g11": g11_wide, "g4": g4_fill, "g3s": g3_sparse, "g1": g1_small, "g2": g2_bytes, "g3": g3_blocks, "g5": g5_utf8, "g6": g6_invalid,
+# ------------------------------------------------------------------------------------------ G14
+def g14_dense(rng, n, prefix="g14"):
+    """densely filled state arrays with few outputs (one long chain pattern, or two), under every
+    size class of value type incl. the zero-sized one: num_states close to num_elements, so the
+    reported element count and heap size have no slack (C15)"""
+    cases = []
+    k = 0
+    for L in (171, 250, 254):
+        for vt in ("empty", "u8", "u64", "u128"):
+            for var, kind in (("bw", 0), ("cw", 0), ("bw", 1), ("cw", 2)):
+                if k >= n:
+                    return cases
+                pats = [b"a" * L] + ([b"a" * (L // 2) + b"b"] if k % 3 == 0 else [])
+                lo, hi = VTYPES[vt]
+                pv = [(p, min(hi, j)) for j, p in enumerate(pats)]
+                cases.append(Case(f"{prefix}_{k}", var, kind, 16, vt, "values", "ST", pv, [b"a" * 12 + b"b", b"baab"], b"", suite="dense"))
+                k += 1
+    return cases
+
+
+# ------------------------------------------------------------------------------------------ G15
+def g15_long(rng, n, prefix="g15"):
+    """a few very long patterns (one symbol repeated 2^16 times and more): counters of symbol
+    frequencies, pattern lengths and chain depths beyond 16 bits.  Implementation + specification
+    only (ops letter 'N'), like g13."""
+    cases = []
+    plan = [("cw", 0, [b"a" * 65536]), ("bw", 0, [b"a" * 65536]), ("cw", 1, [b"a" * 40000, b"ba" * 20000, b"a" * 25536 + b"c"]),
+            ("cw", 2, ["\u00e9".encode() * 65537, b"x"]), ("bw", 2, [b"ab" * 33000, b"b"])]
+    for k, (var, kind, pats) in enumerate(plan[:n]):
+        pv = [(p, j + 1) for j, p in enumerate(pats)]
+        hs = [b"aaab", pats[0][:20] + b"x" + pats[-1][:6]]
+        cases.append(Case(f"{prefix}_{k}", var, kind, 16, "u32", "values" if k % 2 == 0 else "build", "SN", pv, hs, b"", suite="long"))
+    return cases
+
+
+# ------------------------------------------------------------------------------------------ G16
+def g16_chain_alias(rng, n, prefix="g16"):
+    """a chain pattern that just overflows the first block (253..258 states) and a short pattern
+    whose second byte is a small value: the node laid out after the block was appended can be
+    handed the base at which the new block starts if that base was never reserved, and then
+    shares children with a chain node hundreds of levels deep (transition count, matches)"""
+    cases = []
+    k = 0
+    for L in (256, 254, 253, 255, 257, 258):
+        for c in (3, 0, 1, 2, 4):
+            for nfb in (16, 1):
+                if k >= n:
+                    return cases
+                pats = [b"z" * L, bytes([0x62, c])]
+                if k % 4 == 3:
+                    pats.append(bytes([0x63, c, 0x7A]))
+                hs = [b"bzq", b"bzzzzzzq" + bytes([0x62, c]), b"zzbz" + bytes([c]), b"z" * 20 + b"b"]
+                cases.append(Case(f"{prefix}_{k}", "bw", k % 3 if k % 5 == 4 else 0, nfb, "u32", "values", "ST",
+                                  [(p, j) for j, p in enumerate(pats)], hs, b"", suite="chainalias"))
+                k += 1
+    return cases
+
+
+GENS = {"g16": g16_chain_alias, "g15": g15_long, "g14": g14_dense, "g13": g13_huge, "g11": g11_wide, "g4": g4_fill, "g3s": g3_sparse, "g1": g1_small, "g2": g2_bytes, "g3": g3_blocks, "g5": g5_utf8, "g6": g6_invalid,
         "g7": g7_values, "g8": g8_perm, "g9": g9_orders, "g10": g10_failchains, "g12": g12_threads}
 
 
@@ -729,6 +794,12 @@ def suites_for(prop, seed, tier):
         cs += [c for c in got if c.kind in kinds or c.entry in ("new", "with_values")]
     if tier != "quick" and prop in ("C01", "C02", "C03", "C04", "C05"):
         cs += [c for c in g1_exhaustive() if c.kind in kinds]
+    if prop in ("C07", "C13"):
+        # every search entry point (slice and byte-iterator) is also called on automata of the other
+        # kind: it must panic (documented kind assertion), never loop or read out of range
+        for c in cs:
+            if "K" not in c.ops and "N" not in c.ops:
+                c.ops += "K"
     KINDS = (0, 1, 2)
     # unique ids
     seen = set()
@@ -738,6 +809,36 @@ def suites_for(prop, seed, tier):
             continue
         seen.add(c.id)
         out.append(c)
+    return out
+
+
+SEARCH_EXTRA = [("g2", 60), ("g4", 40), ("g3s", 2), ("g11", 20), ("g10", 10), ("g16", 30), ("g9", 40), ("g5", 20), ("g3", 3)]
+
+
+def search_suites(prop, seed, tier):
+    """cases for the failing-input search that follows a broken obligation / correspondence: the
+    property's own plan with another seed plus the directed families of ALL plans (block filling,
+    sparse high fan-out, wide nodes, long fail chains, block-overflowing chains, registration
+    orders, UTF-8 twins), restricted to the match kinds the property speaks of.  Evaluated by the
+    implementation and the extracted specification only, so it is cheap."""
+    global KINDS
+    cs = suites_for(prop, seed, tier)
+    kinds, plan = PLAN[prop]
+    have = {name for name, _, _ in plan}
+    KINDS = kinds
+    rng = Rng(seed * 2000003 + int(prop[1:]))
+    for name, n in SEARCH_EXTRA:
+        sub = Rng(rng.next())
+        if name in have and name not in ("g2", "g4", "g11"):
+            continue
+        got = GENS[name](sub, n, prefix="y" + name)
+        cs += [c for c in got if c.kind in kinds]
+    KINDS = (0, 1, 2)
+    seen, out = set(), []
+    for c in cs:
+        if c.id not in seen:
+            seen.add(c.id)
+            out.append(c)
     return out
 
 
